@@ -180,7 +180,7 @@ def run(prog, tier) -> Result:
             st = o.state
             if o.kind == "raise":
                 if o.exc.name == "UnitConversionError" and fl in ("noref", "money"):
-                    return None
+                    return None if converters_tried(o) else NOT_TRIED
                 return (exc_sig(o), "contract: converted quantity")
             v = o.value
             if isinstance(v, QtyV) and v.amount is not None:
